@@ -267,7 +267,7 @@ func crashPart(name string, q, t int, f func(*sup.Ctx, *rng.R)) sup.Part {
 func init() {
 	sup.Register(&sup.Check{
 		Prop: "C10", Level: "fault_enumeration",
-		Rule: "a writer child process opens an on-disk bucket, runs a model-generated history over all entry points (3 collections, views indexed every 5 ops) and streams INTENT before and ACK (with the key's full read-back) after every call; it is SIGKILLed (i) by the hook handler at the n-th hit of each of txn.begin / txn.precommit / cas.between / txn.postcommit / event.prepost, (ii) inside SQLite's commit by strace injecting SIGKILL at the N-th pwrite64, (iii) right after the last ACK, (iv) externally while idle, plus a clean Close as control; a FRESH process reopens the bucket (ReOpenExisting and CreateOrOpen alternately) and dumps every key of every collection, UUID, collections (with the filler documents of admin-created collections: create / fill / drop cycles are killed by strace between the statements of one admin call), design documents and a non-stale view query, in some runs after a CreateNew attempt that must be refused and must leave the bucket intact, or after an open attempted (and failing) while the database file was write-locked from outside for longer than the busy timeout; kills swept over every pwrite64 of bucket creation: what a later open accepts must be a whole bucket; oracle: every key equals the read-back of its last acknowledged call, the key of the call in flight is either unchanged or passes the full sequential judge as a completed call (all-or-nothing over body, xattrs, CAS, expiry, revision), the view agrees with the surviving documents, CAS values after reopening with a rewound clock exceed every acknowledged CAS, and a document with a 2 s expiry written before the kill is tombstoned within 3 s of its deadline after reopen without client activity; cell = (kill class, entry point in flight, applied / not applied)",
+		Rule: "a writer child process opens an on-disk bucket, runs a model-generated history over all entry points (3 collections, views indexed every 5 ops) and streams INTENT before and ACK (with the key's full read-back) after every call; it is SIGKILLed (i) by the hook handler at the n-th hit of each of txn.begin / txn.precommit / cas.between / txn.postcommit / event.prepost, (ii) inside SQLite's commit by strace injecting SIGKILL at the N-th pwrite64, (iii) right after the last ACK, (iv) externally while idle, plus a clean Close as control; a FRESH process reopens the bucket (ReOpenExisting and CreateOrOpen alternately) and dumps every key of every collection, UUID, collections (with the filler documents of admin-created collections: create / fill / drop cycles are killed by strace between the statements of one admin call), design documents and a non-stale view query, in some runs after a CreateNew attempt that must be refused and must leave the bucket intact, or after an open attempted (and failing) while the database file was write-locked from outside for longer than the busy timeout; kills swept over every pwrite64 of bucket creation: what a later open accepts must be a whole bucket; oracle: every key equals the read-back of its last acknowledged call, the key of the call in flight is either unchanged or passes the full sequential judge as a completed call (all-or-nothing over body, xattrs, CAS, expiry, revision), the view agrees with the surviving documents, CAS values after reopening with a rewound clock exceed every acknowledged CAS, and a document with a 2 s expiry written before the kill is tombstoned within 3 s of its deadline after reopen without client activity; (large purge) 300-1100 tombstones, the writer kills itself at the n-th txn.precommit / txn.postcommit hit inside the one PurgeTombstones call: after reopen all or none are left; cell = (kill class, entry point in flight, applied / not applied)",
 		Assumptions: []string{"process death only: power loss / fsync ordering is not observable here (the page cache survives a killed process)", "kills before the writer reported the bucket open are outside the statement and are not judged", "strace counts pwrite64 per thread, so N selects a crash point only approximately; the oracle does not depend on where the kill landed"},
 		Parts: []sup.Part{
 			crashPart("hook-kills", 480, 12000, hookKillScenario),
